@@ -313,7 +313,11 @@ func c02Request(sp *spec.Spec, ex *rt.Exchange) *Verdict {
 		RequestPlacement(sp, sv, m, ex, v)
 	}
 	locOf := func(a string) valgen.Loc { return cases.LocOf(m.HTTP, a) }
-	want := rt.NormKeys(Expect(sp, m.Payload.Type, ex.Case.Sent, locOf, nil, 0))
+	exp := Expect(sp, m.Payload.Type, ex.Case.Sent, locOf, nil, 0)
+	if isMultipart(m) {
+		exp = multipartExpect(sp, m, ex.Case.Sent, exp) // body attributes arrive as the lab's codec delivers them (multipart.go)
+	}
+	want := rt.NormKeys(exp)
 	got := ex.StubIn.Payload
 	prt, _ := sp.Resolve(m.Payload.Type)
 	if prt == nil {
